@@ -670,7 +670,7 @@ func finish(d *Driver, tier string, seed int64, all []*ItemResult, wall time.Dur
 	ev.Coverage["discharged"] = dis
 	ev.Coverage["discharged_syntactically"] = syn
 	ev.Coverage["solver_queries"] = queries
-	ev.Coverage["solver"] = "z3 5.1.0 (z3-new -in, push/pop); per-query timeout " + map[string]string{"quick": "20 s", "thorough": "120 s"}[tier]
+	ev.Coverage["solver"] = "z3 5.1.0: persistent incremental process (push/pop, " + map[string]string{"quick": "3 s", "thorough": "10 s"}[tier] + " per query) with fresh-process fallback for unknown answers (" + map[string]string{"quick": "20 s", "thorough": "120 s"}[tier] + ")"
 	ev.Coverage["solver_time_s"] = solverMs / 1000
 	ev.Coverage["max_query_ms"] = maxQ
 	ev.Coverage["items"] = len(all)
